@@ -47,6 +47,13 @@ def check(run):
                                         "PASS_0", "DecodeDepthBuffer", "bg/ffxiv/sea_s1/twn/s1t1/level/planmap.lgb",
                                         "bg/ffxiv/", "bg//file.tex", "bg/a//b.tex", "/", "//", "/x", "x/", "BG/Odd/"]]
     cases += batches(paths, 7000, 10, "paths")
+    # capitals outside ASCII (no ASCII capital, with ASCII capitals, already lower case): the hash is of the lower-cased text, whatever
+    # the script; lower-case forms from Python's str.lower() (letters with context-dependent or multi-character mappings are left out)
+    words = ["É", "ÉCOLE", "école", "École", "ÜBER", "über", "Über/Straße", "ЖУК", "жук", "ΩΜΈΓΑ", "ωμέγα", "ÀÉÎÕÜ.tex", "chara/ÉQUIP/é0001.mdl".replace("/", "_"),
+             "Ñandú", "ÇA", "Ångström", "日本語ABC", "ｆｕｌｌ", "ＡＢＣ", "Æther", "ŁÓDŹ", "Đ", "Ÿ"]
+    words = [w for w in words if "/" not in w]
+    cases.append(Case([{"op": "codec.hash", "case": 7500, "ss": [list(w.encode()) for w in words], "lowered": [list(w.lower().encode()) for w in words],
+                        "_index1": EMPTY_INDEX1}], desc={"hash-batch": "non-ascii capitals", "count": len(words)}, key="nonascii"))
     # SHA-1 through FileInfo::new: every length 0..300 and the padding edges
     n = 8000
     for ln in list(range(0, 301)) + [1024 - 64 + e for e in (55, 56, 63, 64)] + [4096 + 55, 65536 - 8, 65536 + 56]:
